@@ -12,11 +12,22 @@ void _inplace_conj(arr_cmplx& x) {
     }
 }
 
-std::vector<cmplx_t> _irfft_coeffs(int n) noexcept {
-    assert(n % 4 == 0);
+int _even_size(int n) {
+    DSPLIB_ASSERT((n >= 2) && (n % 2 == 0), "ifft size must be even");
+    return n;
+}
+
+std::vector<cmplx_t> _irfft_coeffs(int n) {
+    DSPLIB_ASSERT((n >= 2) && (n % 2 == 0), "ifft size must be even");
     const int n4 = n / 4;
     const int n2 = n / 2;
     std::vector<cmplx_t> res(n / 2);
+    if (n % 4 != 0) {
+        for (int i = 0; i < n2; ++i) {
+            res[i] = {std::cos(2 * pi * i / n), std::sin(2 * pi * i / n)};
+        }
+        return res;
+    }
     res[0] = {1, 0};
     res[n4] = {0, 1};
     //use only first n/4 samples
@@ -56,7 +67,7 @@ int IfftPlan::size() const noexcept {
 
 //---------------------------------------------------------------------------------
 IfftPlanR::IfftPlanR(int n)
-  : _n{n}
+  : _n{_even_size(n)}
   , _d{std::make_shared<FftPlan>(n / 2)}
   , _w(_irfft_coeffs(n)) {
     DSPLIB_ASSERT(n % 2 == 0, "ifft size must be even");
